@@ -362,6 +362,10 @@ def run(pid, tier, seed):
         # model <-> implementation on the composition itself: the type MonkeyType's library pipeline computes for a position
         # from a bag of values equals the model's positionType (relation over infer + rewrite, as in C04/C07, kept small here)
         _pipeline_correspondence(chk, drv, tbl, quick)
+        # ... and on whole functions (definition_arg_sound / definition_yield_sound / definition_return_sound speak about
+        # Model/FuncDef's shrinkTraced / updatedDefinition): the real shrink_traced_types / get_updated_definition against them
+        from .. import funcdef_corr
+        funcdef_corr.run(chk, drv, tbl, pd, seed, "corr.C01", 60 if quick else 2000)
         if stats.get("positions", 0) < 50:
             chk.notes.append("few positions checked: %r" % stats)
             chk.rel("coverage.C01.positions", False, {"stats": stats})
